@@ -28,7 +28,11 @@ pub fn run_emitted(ctx: &Ctx, p: &'static str) {
                 let text = case["json"].as_str().unwrap(); let via_stdin = i % 2 == 0;
                 let (mut cmd, file) = if via_stdin { (Cmd::new(&["hash", "typeddata", "-"]).stdin(text.as_bytes()), None) } else { let f = scratch_file("cli-repetition", i, "td", text.as_bytes()); (Cmd::new(&["hash", "typeddata", &f]), Some(f)) };
                 let mh = i % 3 == 0; if mh { cmd = cmd.arg("--message-hash"); }
-                let r = cmd.run(Build::Release); if let Some(f) = file { rm(&f); }
+                let r = cmd.run(Build::Release);
+                // what must be refused must be refused in the other mode as well
+                if class == "must-reject" { let other = if mh { Cmd::new(&["hash", "typeddata", "-"]).stdin(text.as_bytes()) } else { Cmd::new(&["hash", "typeddata", "-", "--message-hash"]).stdin(text.as_bytes()) }; let r2 = other.run(Build::Release);
+                    if r2.ok() || !r2.stdout.is_empty() { ctx.violation(format!("{p}:cli:typeddata:must-reject:hashed"), format!("a document that must be refused is hashed on the CLI {} --message-hash ({origin}): {}", if mh { "without" } else { "with" }, trunc(&r2.line(), 80)), other.replay("cli-repetition", i, Build::Release)); } }
+                if let Some(f) = file { rm(&f); }
                 let shape = format!("typeddata:{class}{}", if mh { ",message-hash" } else { "" });
                 if crash(ctx, p, "cli-repetition", i, &shape, &cmd, &r) { return; }
                 ctx.eval(format!("{shape}:{}", if r.ok() { "hashed" } else { "refused" }));
